@@ -39,11 +39,22 @@ PHASES = [
     ("optional:unneeded", [{"fam": "f_optional", "knobs": {}}, {"fam": "f_optional", "knobs": {"u": 0}}]),
     ("glob:remove", [{"fam": "f_glob", "knobs": {}}, {"fam": "f_glob", "knobs": {"present": ("a",)}}]),
     ("partial", [{"fam": "f_prodcons", "knobs": {}}]),
+    # a planning script that is deferred and runs again while a step it defined is still running
+    ("deferplan", [{"fam": "f_deferplan", "knobs": {}}], {"njob": 4}),
 ]
 CFG = {"njob": 2}
+# base schedules of the killed execution: non-preemptive (a thread runs on while it can) and
+# oldest-event-first (all runnable threads advance in turn, commands overlap as much as possible)
+POLICIES = ("thread", "fifo")
 
 
-def run_killed(descs, k, prefix=()):
+def phase_cfg(spec_cfg):
+    cfg = dict(CFG)
+    cfg.update(spec_cfg or {})
+    return cfg
+
+
+def run_killed(descs, k, prefix=(), base=None):
     """Run the history; kill the last session at its k-th snapshot point (k=None: never)."""
     files = hist.desc_files(descs[0])
     world = hist.fresh_world(files, "c5")
@@ -54,7 +65,9 @@ def run_killed(descs, k, prefix=()):
             nf = hist.desc_files(desc)
             hist.sync(world, files, nf)
             files = nf
-        cfg = dict(CFG)
+        cfg = phase_cfg(base)
+        if not last:
+            cfg.pop("policy", None)
         if last:
             def hook(sim, tag):
                 n = sim.snap_count
@@ -85,21 +98,38 @@ def run_killed(descs, k, prefix=()):
 
 def jobs(tier, seed):
     out = []
-    for name, descs in PHASES:
-        world, info = run_killed(descs, None)
-        world.destroy()
-        n = len(info["snaps"])
-        chunk = 12
-        for lo in range(1, n + 1, chunk):
-            out.append({"name": name, "descs": descs, "ks": list(range(lo, min(n, lo + chunk - 1) + 1)),
-                        "prefix": []})
+    for phase in PHASES:
+        name, descs = phase[0], phase[1]
+        for policy in POLICIES:
+            base = dict(phase[2] if len(phase) > 2 else {})
+            base["policy"] = policy
+            world, info = run_killed(descs, None, (), base)
+            world.destroy()
+            if info["obs"].rc_class != "success":
+                # this base schedule does not complete the project (deferred-creator findings):
+                # there is no uninterrupted reference to compare a restart with
+                continue
+            n = len(info["snaps"])
+            chunk = 12
+            for lo in range(1, n + 1, chunk):
+                out.append({"name": f"{name}/{policy}", "descs": descs, "base": base,
+                            "ks": list(range(lo, min(n, lo + chunk - 1) + 1)), "prefix": []})
+            if tier == "thorough" and policy == "thread":
+                # every execution with one deviation from the base schedule, killed at each of
+                # its snapshot points (the points are counted inside the job)
+                from ..explore import children
+
+                for kid in children(info["obs"].points, 0, 0, 1):
+                    out.append({"name": f"{name}/{policy}+1", "descs": descs, "base": base,
+                                "ks": None, "prefix": kid})
     return out
 
 
-def reference(descs):
-    key = json.dumps(descs, sort_keys=True, default=str)
+def reference(descs, base=None, prefix=()):
+    """The uninterrupted execution with the same schedule as the killed one."""
+    key = json.dumps([descs, base, list(prefix)], sort_keys=True, default=str)
     if key not in _REF:
-        world, info = run_killed(descs, None)
+        world, info = run_killed(descs, None, prefix, base)
         # a second, idle restart settles anything the first run leaves for "next time"
         _REF[key] = info["obs"]
         world.destroy()
@@ -112,13 +142,25 @@ _REF = {}
 def run_job(spec):
     acc = Acc()
     name, descs = spec["name"], spec["descs"]
-    ref = reference(descs)
+    base = spec.get("base")
+    rcfg = phase_cfg(base)
+    rcfg.pop("policy", None)
+    ref = reference(descs, base, spec["prefix"])
     if ref.rc_class != "success":
+        if spec["prefix"]:
+            # this schedule does not complete the project even without a kill (C02's subject)
+            acc.count("schedules_without_successful_reference")
+            return acc
         acc.violation(f"C05|{name}|reference-not-successful", {"rc": ref.rc_class}, None)
         return acc
     seen = set()
-    for k in spec["ks"]:
-        world, info = run_killed(descs, k, spec["prefix"])
+    ks = spec["ks"]
+    if ks is None:
+        world, info = run_killed(descs, None, spec["prefix"], base)
+        world.destroy()
+        ks = range(1, len(info["snaps"]) + 1)
+    for k in ks:
+        world, info = run_killed(descs, k, spec["prefix"], base)
         try:
             killed = info["killed"]
             if killed is None:
@@ -133,10 +175,11 @@ def run_job(spec):
             busy = [s for s, st in killed["steps"].items() if st in (22, 25)]
             if busy or killed["to_be_deleted"] or killed["tag"] == "remove":
                 acc.nontrivial.add(h8([name, k]))
-            restart = hist.build(world, descs[-1], CFG)
+            restart = hist.build(world, descs[-1], rcfg)
             acc.evaluations += 1
             acc.transitions += restart.nev
-            rep = {"check": "C05", "name": name, "descs": descs, "k": k, "prefix": spec["prefix"]}
+            rep = {"check": "C05", "name": name, "descs": descs, "k": k, "prefix": spec["prefix"],
+                   "base": base}
             problems = []
             if not restart.ok():
                 problems.append(("restart-raised", {"fault": restart.fault, "error": restart.error}))
@@ -155,17 +198,36 @@ def run_job(spec):
                                             if a.get(x) != b.get(x)}))
                 ga, gb = _norm_graph(restart.attached), _norm_graph(ref.attached)
                 if ga != gb:
-                    problems.append(("graph-differs", canon.diff_graphs(ga, gb, 5)))
+                    diff = canon.diff_graphs(ga, gb, 5)
+                    only_inp_digest = all(
+                        isinstance(d, dict) and d.get("a") and d.get("b")
+                        and [x for x in d["a"] if "inp_digest" not in x]
+                        == [x for x in d["b"] if "inp_digest" not in x]
+                        for d in canon.diff_graphs(ga, gb, 1000))
+                    problems.append(("inp-digest-differs" if only_inp_digest else "graph-differs", diff))
                 da = {x for x, v in restart.fs.items() if v == "dir"}
                 db_ = {x for x, v in ref.fs.items() if v == "dir"}
                 if da - db_:
                     problems.append(("leftover-dir", sorted(da - db_)))
-            skipped = [r[1] for r in restart.reports if r[0] == "SKIP"]
+            # a step whose command was running at the kill must run again before it can be
+            # considered done: its first START/SKIP report of the restart must be a START
+            # (a later SKIP of the freshly rerun step is an ordinary re-validation)
+            first = {}
+            for r in restart.reports:
+                if r[0] in ("START", "SKIP"):
+                    first.setdefault(r[1], r[0])
             for label in killed["running_cmds"]:
-                if label in skipped:
+                if first.get(label) == "SKIP":
                     problems.append(("interrupted-step-skipped", label))
             for kind, detail in problems:
                 key = f"C05|{name}|{kind}|{killed['tag']}"
+                if kind == "inp-digest-differs" and spec["prefix"]:
+                    # states, relations and files agree; only the stored input digest of a step
+                    # differs, and it already differs between two uninterrupted schedules of the
+                    # same build (known finding of C02: an input that is OUTDATED when its consumer
+                    # completes is left out of the digest): the restart follows another schedule
+                    # than the tail of the killed execution
+                    key = "C05|inp-digest-depends-on-schedule"
                 if kind in ("leftover-file", "leftover-dir"):
                     left = set(detail) if isinstance(detail, (list, dict)) else set()
                     pend = {p.rstrip("/") for p in killed["to_be_deleted"]}
@@ -207,9 +269,11 @@ def replay(doc):
     print(json.dumps(doc.get("what"), indent=1, default=str)[:8000])
     rep = doc.get("replay") or {}
     if "k" in rep:
-        world, info = run_killed(rep["descs"], rep["k"], rep.get("prefix", ()))
+        world, info = run_killed(rep["descs"], rep["k"], rep.get("prefix", ()), rep.get("base"))
         print("killed:", info["killed"])
-        restart = hist.build(world, rep["descs"][-1], CFG)
+        rcfg = phase_cfg(rep.get("base"))
+        rcfg.pop("policy", None)
+        restart = hist.build(world, rep["descs"][-1], rcfg)
         for r in restart.reports:
             print("   ", r[0], r[1])
         print(restart.graph_text)
